@@ -127,6 +127,9 @@ CAT = {
     'OBLIQUE': (lambda: crystal.Crystal(A([[1., 0.3], [0., 1.1]]), [np.zeros(2)]), dict(chem=0, cut=[1.01, 1.15])),
     'HONEY': (lambda: crystal.Crystal(HEX2, [A([2 / 3, 1 / 3]), A([1 / 3, 2 / 3])]), dict(chem=0, cut=[0.6, 1.01])),
     'RECTM': (lambda: crystal.Crystal(A([[1., 0.], [0., s3]]), [np.zeros(2), A([0.5, 0.4])]), dict(chem=0, cut=[1.2], vectorbasis=True)),
+    # RECTM with a spectator species X: the vacancy sublattice (origin states) is NOT the whole crystal (crys.N = 3, N = 2)
+    'RECTMX': (lambda: crystal.Crystal(A([[1., 0.], [0., s3]]), [[np.zeros(2), A([0.5, 0.4])], [A([0., 0.7])]], ['A', 'X']),
+               dict(chem=0, cut=[1.2], vectorbasis=True, spectator=True)),
     'RECTM2': (lambda: crystal.Crystal(A([[1., 0.], [0., s3]]), [np.zeros(2), A([0.5, 0.45])]), dict(chem=0, cut=[1.2], vectorbasis=True)),
     'TRIA2': (lambda: crystal.Crystal(A([[1., 0.], [0., s3]]), [np.zeros(2), A([0.5, 0.5])]), dict(chem=0, cut=[1.01])),
     'KAGOME': (lambda: crystal.Crystal(HEX2, [A([0.5, 0.]), A([0., 0.5]), A([0.5, 0.5])]), dict(chem=0, cut=[0.51, 0.9])),
